@@ -114,7 +114,16 @@ def elem_conversion(F, f):
     f = strip(f)
     if f[0] == 'c' and isinstance(f[1], tuple) and f[1] and f[1][0] == 'fn':
         from facts import strip_generics
-        return bool(ELEM_CONV.search(strip_generics(str(f[1][1]))))
+        if ELEM_CONV.search(strip_generics(str(f[1][1]))):
+            return True
+        hf = F.fns.get(str(f[1][1])) or F.fns.get(strip_generics(str(f[1][1])))
+        if hf is None or not symex.is_new_helper(hf) or hf.arg_count != 1:
+            return False
+        # a helper function that does not exist on the reference tree: judged by its body, like a closure literal
+        f = ('agg', 'closure', hf.defp, '', ())
+        self_param = 1
+    else:
+        self_param = 2
     if f[0] == 'agg' and f[1] == 'closure' and f[2] in F.fns:
         cf = F.fns[f[2]]
         ps = symex.Interp(F).run(cf)
@@ -126,7 +135,7 @@ def elem_conversion(F, f):
             names = [e.data[1] for e in p.calls()]
             if not names or not all(ELEM_CONV.search(n) or VEC_OK.search(n) for n in names) or not any(ELEM_CONV.search(n) for n in names):
                 return False
-            if not mentions(p.outcome[1], lambda x: x == ('param', 0, 2) or (x[0] == 'field' and strip(x[1]) == ('param', 0, 2)) or (x[0] == 'ref' and x[1][0] == ('ptr', ('param', 0, 2)))):
+            if not mentions(p.outcome[1], lambda x: x == ('param', 0, self_param) or (x[0] == 'field' and strip(x[1]) == ('param', 0, self_param)) or (x[0] == 'ref' and x[1][0] == ('ptr', ('param', 0, self_param)))):
                 return False
         return True
     return False
